@@ -18,6 +18,12 @@ EXPLANATION = ("The flush loop is re-verified with every await treated as an int
                "relation before the callee's postcondition is assumed; each iteration must not remove an entry whose message it did not write.")
 
 
+
+def owns(ob_):
+    # what a private helper returns is observable only through its callers, whose own clause of the same name is a property clause;
+    # on the helper it is a helper clause (a caller that returns the message itself does not need it: benign/two_1_2)
+    return not (ob_["name"] == "C09/returns-the-message" and "._handle_sleep_buffer" in ob_.get("unit", ""))
+
 def build(world):
     gu.prepare(world)
     units = []
